@@ -20,7 +20,23 @@ use model::*;
 use serde::{Deserialize, Serialize};
 use std::collections::{BTreeMap, BTreeSet};
 
+struct StderrLogger;
+impl ::log::Log for StderrLogger {
+    fn enabled(&self, _: &::log::Metadata) -> bool {
+        true
+    }
+    fn log(&self, r: &::log::Record) {
+        eprintln!("      [lib {}] {}", r.target(), r.args());
+    }
+    fn flush(&self) {}
+}
+
 fn init() {
+    if std::env::var_os("HSIM_TRACE").is_some() {
+        static L: StderrLogger = StderrLogger;
+        let _ = ::log::set_logger(&L);
+        ::log::set_max_level(::log::LevelFilter::Trace);
+    }
     actors::SPAWN_CHILD.set(interp::spawn_plain_addr).ok();
     futures_util::__verif_set_random_hook(simrt::select_random);
     let prev = std::panic::take_hook();
@@ -224,7 +240,7 @@ fn minimise_cmd(args: &[String]) -> i32 {
         eprintln!("minimise: run {index} does not reproduce rule {rule}");
         return 2;
     }
-    let mut m = minimise::Minimiser { prop: &p, rule: rule.clone(), runs: 0, budget: 3000 };
+    let mut m = minimise::Minimiser { prop: &p, rule: rule.clone(), runs: 0, budget: 1500 };
     let small = m.minimise(&sc);
     // two confirmation runs in this process; the driver replays once more in a fresh process
     let (vs1, out1) = check_scenario(&p, &small);
